@@ -1114,7 +1114,9 @@ def scen_vmdk(ctx, M):
     p = ctx.p
     D = p.get('desc_sectors', 1)
     fixed = {i: b for i, b in enumerate(b'KDMV')}
-    fixed.update({4: 1, 28: 1, 36: D})
+    fixed.update({4: 1, 28: 1})
+    for j, b in enumerate(D.to_bytes(8, 'little')):
+        fixed[36 + j] = b
     sym = []
     hdr = p.get('hdr', ())
     if 'version' in hdr:
@@ -1125,7 +1127,6 @@ def scen_vmdk(ctx, M):
         sym.append(28)
     if 'desc_num' in hdr:
         sym += list(range(36, 44))
-        del fixed[36]
     footer = p.get('footer', False)
     if footer:
         for j in range(8):
@@ -1154,13 +1155,16 @@ def scen_vmdk(ctx, M):
         hd[0:4] = b'KDMV'
         hd[4] = 1
         hd[28] = 1
-        hd[36] = D
+        hd[36:44] = D.to_bytes(8, 'little')
         for j, b in enumerate(hd):
             ft[512 + j] = b
         if 'ver' in footer:
             ft[512 + 4] = ('sym', 'ft_ver')
         if 'num' in footer:
             ft[512 + 36] = ('sym', 'ft_num')
+        if 'num2' in footer:
+            ft[512 + 36] = ('sym', 'ft_num_lo')
+            ft[512 + 37] = ('sym', 'ft_num_hi')
         if 'gd' in footer:
             ft[512 + 56] = ('sym', 'ft_gd')
         if 'sig' in footer:
@@ -1322,6 +1326,11 @@ def vmdk_jobs(J, H, props, tier, kinds, k=1):
         for fs in sets:
             jobs.append(J(H['vmdk'], dict(P, cuts=k, footer=fs, nmax=8192),
                           split_depth=12))
+        # descriptor sector counts at and beyond the 1 MiB clamp: header
+        # says 2048 sectors, the footer's count is a symbolic 16-bit value
+        jobs.append(J(H['vmdk'], dict(P, cuts=0, footer=['num2'],
+                                      desc_sectors=2048, template='',
+                                      nmax=1200 * 1024), split_depth=8))
     if 'descnum' in kinds:
         jobs.append(J(H['vmdk'], dict(P, cuts=k, hdr=['desc_num'],
                                       nmax=1200), split_depth=12))
